@@ -313,6 +313,7 @@ class Rule(MethodWIGM):
     method = 'wigm' # underlying method
     name = 'mpls'
     quota_name = 'Threshold'
+    electsUndeclared = False    # undeclared write-ins are defeated in round 2 [167.70(c)(1)c]
 
     @classmethod
     def ruleNames(cls):
